@@ -3,6 +3,7 @@
 From Coq Require Export List NArith ZArith Bool.
 From Coq Require Import String Ascii DecimalString DecimalN DecimalZ.
 Export ListNotations.
+Export String.StringSyntax.
 Open Scope list_scope.
 
 Definition str := list N.
